@@ -555,3 +555,35 @@ impl LspAnalysisResult {
         vec![]
     }
 }
+
+/// Verification hook (feature `verif`): every diagnostic with all of its labels and notes, so
+/// that a monitor can read e.g. the missing-case witnesses of a non-exhaustive match.
+#[cfg(feature = "verif")]
+#[derive(Debug, Clone)]
+pub struct VerifDiagnostic {
+    pub message: String,
+    pub labels: Vec<(FileId, Range<usize>, String)>,
+    pub notes: Vec<String>,
+}
+
+#[cfg(feature = "verif")]
+impl LspAnalysisResult {
+    pub fn verif_diagnostics(&self) -> Vec<VerifDiagnostic> {
+        self.ctx
+            .errors
+            .iter()
+            .map(|error| {
+                let d = error.make_diagnostic();
+                VerifDiagnostic {
+                    message: d.message.clone(),
+                    labels: d
+                        .labels
+                        .iter()
+                        .map(|l| (l.file_id, l.range.clone(), l.message.clone()))
+                        .collect(),
+                    notes: d.notes.clone(),
+                }
+            })
+            .collect()
+    }
+}
